@@ -58,6 +58,10 @@ def wf_response(res):
                     if not (isinstance(l.get("line"), int) and isinstance(l.get("column"), int)
                             and l["line"] >= 1 and l["column"] >= 1):
                         return f"bad location {l}"
+            if not set(e) <= {"message", "locations", "path", "extensions"}:
+                return f"unexpected error entry keys {sorted(e)}"
+            if "extensions" in e and not isinstance(e["extensions"], dict):
+                return "error extensions is not a map"
             if "path" in e:
                 if not isinstance(e["path"], list) or not all(
                         isinstance(p, (str, int)) and not isinstance(p, bool) for p in e["path"]):
@@ -85,6 +89,20 @@ class HostileEq(Exception):
     __hash__ = Exception.__hash__
 
 
+class ExtList(Exception):
+    extensions = ["UPSTREAM", 502]
+
+
+class ExtStr(Exception):
+    def __init__(self):
+        super().__init__("x")
+        self.extensions = "code"
+
+
+class ExtDict(Exception):
+    extensions = {"code": 1}
+
+
 class MsgAttr(Exception):
     message = 42
     locations = "nope"
@@ -98,7 +116,8 @@ def exc_pool():
         lambda: AssertionError("a"), lambda: StopIteration(), lambda: UnicodeDecodeError("utf-8", b"\xff", 0, 1, "bad"),
         lambda: GraphQLError("g"), lambda: GraphQLError("g", path=["x", 1]), lambda: HostileEq(),
         lambda: MsgAttr("m"), lambda: RecursionError("r"), lambda: MemoryError(), lambda: OSError(5, "io"),
-        lambda: LookupError("\ud800"), lambda: HostileStr(),
+        lambda: LookupError("\ud800"), lambda: HostileStr(), lambda: ExtList("e"), lambda: ExtStr(),
+        lambda: ExtDict("d"),
     ]
 
 
@@ -188,6 +207,7 @@ def run(tier):
       type Query { a: Int  s(x: String = "d", n: Int!): String  o: Query  nn: Int!  l: [Int!]  e: E  i(v: In): Int
                    u: U  it: I }
       type Mutation { m(x: Int): Int }
+      type Subscription { a: Int  o: Query }
       enum E { A B }  input In { a: Int! = 1  b: [In!]  c: E }
       interface I { a: Int }  type T implements I { a: Int  t: String }  union U = T | Query
     """)
@@ -195,14 +215,17 @@ def run(tier):
     docs = ["{ a }", "{ a nn }", "{ o { o { nn a } } l }", "query Q($v: Int!, $w: In = {a: 2}) { s(n: $v) i(v: $w) }",
             "query A { a } query B { nn }", "mutation M { m(x: 1) m2: m }", "{ u { __typename ... on T { t } } it { a } }",
             "{ e l }", "{ __schema { types { name } } }", "{ a", "{ zz }", "query Q($v: Int!) { s(n: $v) }",
-            "subscription S { a }", "{ s(n: 1, x: \"\\ud800\") }", "fragment F on Query { a } { ...F ...F }"]
+            "subscription S { a }", "subscription { ... @defer(label: 5) { a } }", "subscription { a @skip(if: 3) }",
+            "subscription { ... @include(if: $zz) { a } }", "{ ... @defer(label: 5, if: 3) { a } l @stream(initialCount: \"x\") }",
+            "query Q($w: In) { i(v: $w) }", "query Q($v: [Int!]) { a }", "{ s(n: 1, x: \"\\ud800\") }", "fragment F on Query { a } { ...F ...F }"]
     for i in range(30 if quick else 400):
         g = gen_doc.Gen(rng, depth=2)
         docs.append(gen_doc.join_random(g.operation(), rng))
     var_pool = [None, {}, {"v": 1}, {"v": None}, {"v": "1"}, {"v": 2 ** 40}, {"v": float("nan")}, {"v": [1]},
                 {"v": {"a": 1}}, {"w": {"a": None}}, {"w": {"b": [{"a": 1, "zz": 2}]}}, {"v": 1, "w": "x"},
                 {"v": True}, {"v": 1.5}, {"v": object()}, {"w": {"c": "C"}}, {"v": 1, "extra": math.inf},
-                {"v": b"1"}, {"w": [1, 2]}, {"v": -2 ** 31 - 1}]
+                {"v": b"1"}, {"w": [1, 2]}, {"v": -2 ** 31 - 1}, {"w": {1: "x"}}, {1: 2, "v": 1}, {"w": {None: 1, "a": 1}},
+                {"w": {("t",): 1}}, {"v": [None, {2: 3}]}, {"w": {"b": [{3.5: 1}]}}]
     op_pool = [None, "", "Q", "A", "B", "nope", "\ud800", "M", "S"]
     nreq = 0
     for d in docs:
@@ -237,6 +260,31 @@ def run(tier):
                              {"relation": "request returns a well-formed result", "document": d,
                               "variables": repr(vars_), "operation_name": op, "raises": exc_name, "mode": mode,
                               "impl": bad})
+    # every exception class of the pool, raised at a nullable and at a non-null position
+    for mk in pool:
+        for d, fld in (("{ a o { a } }", "a"), ("{ nn }", "nn"), ("{ o { o { nn } } a }", "nn"), ("mutation M { m }", "m")):
+            def raising(*_a, _mk=mk, **_k):
+                raise _mk()
+            root = {"a": 1, "nn": 2, "m": 3}
+            root[fld] = raising
+            root["o"] = root
+            try:
+                res = graphql_sync(schema, d, root_value=root)
+                bad = wf_response(res)
+                if not bad and not (res.errors and all(e.path for e in res.errors)):
+                    bad = "resolver exception did not surface as a located error with a path"
+            except Exception as e:  # noqa: BLE001
+                bad = f"graphql_sync raised {type(e).__name__}: {e!r}"[:200]
+            nreq += 1
+            try:
+                exc_name = type(mk()).__name__
+            except Exception:  # noqa: BLE001
+                exc_name = "?"
+            ck.note_case(("exc", d, exc_name), nontrivial=True)
+            if bad:
+                ck.violation(f"resolver-exception:{exc_name}:{d}", f"resolver raising {exc_name} in {d!r}: {bad}",
+                             {"relation": "resolver exceptions surface as located errors in a well-formed result",
+                              "document": d, "raises": exc_name, "impl": bad})
     ck.count("requests", nreq)
     ck.samples.append({"document": docs[3], "variables": repr(var_pool[10])})
     ck.samples.append({"source_prefix_of": "kitchen_sink.graphql"})
